@@ -417,6 +417,16 @@ pub fn world_b_handshake(property: &str, scenario: &str, seed: u64, run: u64, th
     for (i, &c) in topo.clients.iter().enumerate() {
         let t_create = r.range(0, 3_000_000);
         plan.push(t_create, 1, Op::Create { ep: c });
+        // on the clean link, now and then a volley of handshake ACKs with wrong nonces that carry
+        // the client's address, while its handshake is (probably) still pending: they must not
+        // keep the genuine ACK from completing it
+        if clean && r.chance(0.2) {
+            let mut t = t_create + r.range(0, 2_500_000);
+            for k in 0..r.range(3, 9) {
+                plan.push(t, 0x8000_0002, Op::Inject { to: 0, from: c, bytes: enc_hs_ack(0x4000_0000 + (c as u32) * 64 + k as u32), twin: false });
+                t += r.range(0, 200_000);
+            }
+        }
         let k = plan.param(&format!("drop_pending_ep{}", c), 0.0) as u64;
         if k > 0 {
             // before the first SYN-ACK that gets through has been sent
@@ -1548,11 +1558,19 @@ pub fn world_b_one_way(property: &str, scenario: &str, seed: u64, run: u64, thor
     let c = topo.clients[0];
     plan.push(0, 0, Op::Create { ep: 0 });
     let mut rule = clean_rule(latency);
-    if r.chance(0.5) {
-        rule.jitter_us = r.below(latency + 1);
-    }
-    if r.chance(0.3) {
-        rule.dup_p = 0.05;
+    if property == "C05" {
+        // the ideal network: nothing lost, nothing duplicated, order preserved
+        rule.fifo = true;
+        if r.chance(0.3) {
+            rule.jitter_us = r.below(latency + 1);
+        }
+    } else {
+        if r.chance(0.5) {
+            rule.jitter_us = r.below(latency + 1);
+        }
+        if r.chance(0.3) {
+            rule.dup_p = 0.05;
+        }
     }
     plan.push(0, 2, Op::Link { from: None, to: None, rule });
     plan.push(0, 3, Op::Mark { name: "heal".into() });
@@ -1570,7 +1588,8 @@ pub fn world_b_one_way(property: &str, scenario: &str, seed: u64, run: u64, thor
     let mut tag = 0u32;
     while t < t0 + stream_us && tag < 4000 {
         let len = if r.chance(0.1) { r.range(1500, 4000) } else { r.range(12, 600) } as u32;
-        plan.push(t, 0x4000_0000 + tag, Op::Send { ep: from, to, ch: (tag % 3) as u8, mode: MODE_RELIABLE, len, tag });
+        let mode = if property == "C05" { *r.pick(&[MODE_RELIABLE, MODE_UNRELIABLE, MODE_PERSISTENT]) } else { MODE_RELIABLE };
+        plan.push(t, 0x4000_0000 + tag, Op::Send { ep: from, to, ch: (tag % 3) as u8, mode, len, tag });
         tag += 1;
         t += if busy { r.log_range(3_000, max_gap.min(80_000)) } else { r.log_range(50_000, max_gap) };
     }
